@@ -67,3 +67,27 @@ T32_BR = [('t32_b_t3', '11110scccciiiiii10j0kiiiiiiiiiii'), ('t32_b_t4', '11110s
           ('t32_bl', '11110siiiiiiiiii11j1kiiiiiiiiiii'), ('t32_blx', '11110siiiiiiiiii11j0kiiiiiiiiii0')]
 
 COND_BIAS = [14, 14, 14, 14, 14, 14, 0, 1, 2, 3, 4, 5, 6, 7, 8, 9, 10, 11, 12, 13]
+
+# load/store families
+ARM_LS = [('ls_imm', 'cccc010pubwlnnnnttttiiiiiiiiiiii'), ('ls_reg', 'cccc011pubwlnnnnttttiiiiiyy0mmmm'),
+          ('xls_imm', 'cccc000pu1wlnnnnttttiiii1yy1iiii'), ('xls_reg', 'cccc000pu0wlnnnntttt00001yy1mmmm')]
+ARM_LSM = [('lsm', 'cccc100pu0wlnnnnrrrrrrrrrrrrrrrr')]
+T32_LS = [('t32_ls_i12', '1111100s1zzlnnnnttttiiiiiiiiiiii'), ('t32_ls_i8', '1111100s0zzlnnnntttt1puwiiiiiiii'),
+          ('t32_ls_reg', '1111100s0zzlnnnntttt000000iimmmm'), ('t32_lsd', '1110100pu1wlnnnnttttddddiiiiiiii'),
+          ('t32_tb', '111010001101nnnn11110000000hmmmm')]
+T32_LSM = [('t32_lsm_ia', '1110100010wlnnnnpm0rrrrrrrrrrrrr'), ('t32_lsm_db', '1110100100wlnnnnpm0rrrrrrrrrrrrr')]
+
+
+def t16_ls_word(rnd):
+    r = rnd.random()
+    if r < 0.1:
+        return 0x4800 | rnd.getrandbits(11)                   # LDR literal
+    if r < 0.35:
+        return 0x5000 | rnd.getrandbits(12)                   # register offset forms
+    if r < 0.7:
+        return 0x6000 | rnd.getrandbits(13)                   # STR/LDR/STRB/LDRB imm5
+    if r < 0.8:
+        return 0x8000 | rnd.getrandbits(12)                   # STRH/LDRH imm5
+    if r < 0.9:
+        return 0x9000 | rnd.getrandbits(12)                   # SP-relative
+    return rnd.choice([0xC000, 0xC800, 0xB400, 0xBC00]) | rnd.getrandbits(9 if rnd.random() < 0.5 else 8)
